@@ -97,7 +97,7 @@ Lemma kept_pos f f' : kept f f' -> f_pos f' = f_pos f. Proof. intros H. rewrite 
 Lemma match_set_pos s r f p rest : Match s r (f :: rest) -> Match s r (set_pos f p :: rest).
 Proof. intros [F N]. split; [|exact N]. inversion F as [|sc f0 scs fs FM F' E1 E2]; subst. constructor; assumption. Qed.
 Lemma match_upd s r c fs : Match s r fs -> Match s (upd_cur r c) fs.
-Proof. intros [F N]. split; [exact F|rewrite nss_upd_cur; exact N]. Qed.
+Proof. intros [F N]. split; [exact F|rewrite world_upd_cur; exact N]. Qed.
 
 (* ---------------------------------------------------------------- single steps, existential style *)
 Lemma push_post s r c f rest pre post i v :
@@ -224,15 +224,11 @@ Lemma xev_nonnil_code b : nonnil (RCode b). Proof. split; discriminate. Qed.
 
 Lemma pure_unary_nonnil n va v : pure_unary n va = Some v -> cv v <> VNil.
 Proof.
-  unfold pure_unary. intros HU. destruct (String.eqb n "!"); [destruct va; inversion HU; discriminate|].
-  destruct (String.eqb n "count"); [destruct va; inversion HU; discriminate|discriminate].
+  unfold pure_unary, option_map. intros HU. crack HU; inversion HU; discriminate.
 Qed.
 Lemma pure_binary_nonnil n va vb v : pure_binary n va vb = Some v -> cv v <> VNil.
 Proof.
-  unfold pure_binary. intros HBin.
-  repeat match type of HBin with (if ?x then _ else _) = _ => destruct x end; try discriminate;
-    destruct va, vb; try discriminate HBin;
-    repeat match type of HBin with (if ?x then _ else _) = _ => destruct x end; inversion HBin; discriminate.
+  unfold pure_binary. intros HBin. crack HBin; inversion HBin; discriminate.
 Qed.
 Lemma nonnil_cv v : nonnil v -> cv v <> VNil.
 Proof. intros [A B]. destruct v; try discriminate; contradiction. Qed.
@@ -287,14 +283,14 @@ Proof.
       inversion M' as [|sc' fb' scs'' rb' FM' F'' Ea' Eb']; subst.
       eexists _, _, fb, rb. split; [exact S2|]. split.
       { split; [exact G2|]. split; [reflexivity|]. split.
-        { split; [cbn; constructor; assumption|]. rewrite nss_upd_cur. exact NS. }
+        { split; [cbn; constructor; assumption|]. rewrite world_upd_cur. exact NS. }
         split; [rewrite <- K1; cbn; exact B|rewrite quirks_upd_cur; exact D1]. }
       split; [reflexivity|]. split; [unfold moved; rewrite <- K1; destruct f1; reflexivity|].
       split; [rewrite <- K1; reflexivity|exact K2].
     + unfold assign_local_var in *. rewrite A2 in *. rewrite A1. unfold bind_here. rewrite <- E1.
       eexists _, _, _, rest1. split; [exact S2|]. split.
       { split; [exact G2|]. split; [reflexivity|]. split.
-        { split; [|rewrite nss_upd_cur; exact NS]. cbn. constructor; [|exact F'].
+        { split; [|rewrite world_upd_cur; exact NS]. cbn. constructor; [|exact F'].
           destruct FM as (V & N0 & B0). split; [cbn; apply vars_match_set; exact V|split; [exact N0|exact B0]]. }
         split; [cbn; exact B|rewrite quirks_upd_cur; exact D1]. }
       split; [reflexivity|]. split; [unfold moved; destruct f1; reflexivity|]. split; [reflexivity|apply kept_all_refl].
@@ -305,7 +301,8 @@ Proof.
     eexists _, _, _, rest1. split; [exact S2|]. split.
     { split; [exact G2|]. split; [reflexivity|]. split.
       { split; [cbn; rewrite <- E1; constructor; [exact FM|exact F']|].
-        rewrite nss_upd_cur. unfold ns_set. rewrite nss_set_nss, NS.
+        rewrite world_upd_cur. unfold world. f_equal; [|exact (world_marks _ _ _ NS)].
+        unfold ns_set. rewrite nss_set_nss, (world_nss _ _ _ NS).
         destruct FM as (V & N0 & B0). unfold cur_ns_of. rewrite <- E1. rewrite N0. cbn [rns_set st_nss].
         rewrite assoc_mnss. destruct (assoc (sc_ns sc) (st_nss s1)) as [m|]; cbn [option_map].
         - rewrite assoc_set_mvars, assoc_set_mnss. reflexivity.
@@ -336,7 +333,7 @@ Proof.
   unfold bind_here. rewrite <- E1.
   eexists _, _, _, rest1. split; [exact S2|]. split.
   { split; [exact G2|]. split; [reflexivity|]. split.
-    { split; [|rewrite nss_upd_cur; exact NS]. cbn. constructor; [|exact F'].
+    { split; [|rewrite world_upd_cur; exact NS]. cbn. constructor; [|exact F'].
       destruct FM as (V & N0 & B0). split; [cbn; apply vars_match_set; exact V|split; [exact N0|exact B0]]. }
     split; [cbn; exact B|rewrite quirks_upd_cur; exact D1]. }
   split; [reflexivity|]. split; [unfold moved; destruct f1; reflexivity|]. split; [reflexivity|apply kept_all_refl].
@@ -679,14 +676,12 @@ Proof. intros H. unfold in_scope_f. rewrite H. destruct reg; reflexivity. Qed.
 
 Lemma pure_unary_arg n va v : pure_unary n va = Some v -> nonnil va.
 Proof.
-  unfold pure_unary. intros H. destruct (String.eqb n "!"); [destruct va; inversion H; split; discriminate|].
-  destruct (String.eqb n "count"); [destruct va; inversion H; split; discriminate|discriminate].
+  unfold pure_unary, option_map. intros H. crack H; split; discriminate.
 Qed.
 Lemma pure_binary_args n va vb v : pure_binary n va vb = Some v -> nonnil va /\ nonnil vb.
 Proof.
   unfold pure_binary. intros H.
-  repeat match type of H with (if ?x then _ else _) = _ => destruct x end; try discriminate;
-    destruct va, vb; try discriminate H; repeat split; discriminate.
+  crack H; repeat split; discriminate.
 Qed.
 
 Lemma binary_dispatch {T} va vb (A B C D E : T) F : nonnil va -> nonnil vb ->
